@@ -961,7 +961,11 @@ func (s *Service) ProcessRequest(ctx *core.Context, m map[string]interface{}, ou
 		if err != nil {
 			return nil, err
 		}
-		bs := []byte(fmt.Sprintf(`{"fact":%s,"id":"%s"}`, js, id))
+		idjs, err := json.Marshal(id)
+		if err != nil {
+			return nil, err
+		}
+		bs := []byte(fmt.Sprintf(`{"fact":%s,"id":%s}`, js, idjs))
 
 		if _, err = out.Write(bs); err != nil {
 			core.Log(core.ERROR, ctx, "/api/loc/facts/get", "warning", err)
